@@ -133,6 +133,7 @@ struct Stat
 struct Args
 {
     std::string prop, tier = "quick", out, variant = "plain";
+    std::string mode; // "" = the property's monitor; "threads" = distinct objects used by concurrent threads (drivers that support it)
     uint64_t seed = 1;
     int shard = 0, nshards = 1;
     double scale = 1.0; // multiplies case counts
@@ -381,6 +382,12 @@ inline bool allFinite(const A &a)
                 return false;
     return true;
 }
+// distance in doubles between vertically adjacent elements (1 for column-major storage, cols() for row-major)
+template <class M>
+inline int colStride(const M &m)
+{
+    return m.rows() > 1 ? (int)(&m(1, 0) - &m(0, 0)) : 1;
+}
 inline double ulpOf(double x)
 {
     x = std::fabs(x);
@@ -426,6 +433,8 @@ inline bool parseArgs(int argc, char **argv, Args &a)
             a.out = next();
         else if (k == "--variant")
             a.variant = next();
+        else if (k == "--mode")
+            a.mode = next();
         else if (k == "--seed")
             a.seed = strtoull(next().c_str(), 0, 10);
         else if (k == "--shard")
